@@ -151,6 +151,7 @@ def run(ctx):
     thorough = not ctx.quick
     # 1. protocol models (design level)
     design(ctx)
+    replay_protocol(ctx)
     # 2. executions of the real clocks under the controlled scheduler, validated by the L1 monitor
     rnd = random.Random(ctx.seed)
     progs = []
@@ -230,6 +231,51 @@ def design(ctx):
             raise MachineryError('sensitivity: known-wrong protocol %s was not rejected by TLC' % cfg)
         bad.append(dict(cfg=cfg, violated=r.violated))
     ctx.cov['known_wrong_protocols_rejected'] = bad
+
+
+def replay_protocol(ctx):
+    """S->C: behaviours of the AppClockRT protocol model (TLC -simulate) replayed on the real AppClock under the
+    controlled scheduler, one model action = "run thread X until event E"; TLC (TraceAppReplay) compares the
+    projected real state with the model state after every action.  A mismatch is model drift, not an alarm."""
+    from harness import tlc
+    n = 3000 if not ctx.quick else 300
+    behs, r = tlc.simulate_behaviours('AppClockRT', 'AppClockRT_sim.cfg', ctx.work, num=n, depth=16, seed=ctx.seed + 3)
+    ctx.cov['transitions'] += r.generated
+
+    def conv(b):
+        out = []
+        prev = b[0][1]
+        for act, st in b[1:]:
+            u, d = '', 0
+            if act in ('UAdd', 'UNotify'):
+                u = [x for x in st['upc'] if st['upc'][x] != prev['upc'][x]][0]
+                if act == 'UAdd':
+                    d = [e for e in st['q'] if e['t'] == u][0]['p'] - st['now']
+            out.append(dict(act=act, u=u, d=d, st=dict(q=st['q'], now=st['now'], cpc=st['cpc'], dl=st['dl'], woken=st['woken'])))
+            prev = st
+        return out
+    bs = [conv(b) for b in behs]
+    ids = list(range(len(bs)))
+    traces = []
+    per = max(1, (len(bs) + 15) // 16)
+    todo = [(ids[i:i + per], bs[i:i + per]) for i in range(0, len(bs), per)]
+    while todo:
+        outs = ctx.run_drivers('drivers/c08_replay.py', [dict(behaviours=b, ids=i, unit=0.125) for i, b in todo], mode='rt', timeout=1800)
+        nxt = []
+        for (i, b), o in zip(todo, outs):
+            traces += o['traces']
+            if o['done'] < len(b):
+                nxt.append((i[o['done']:], b[o['done']:]))
+        todo = nxt
+    v = ctx.validate('TraceAppReplay', 'TraceAppReplay.cfg', traces)
+    bad = {k: x for k, x in v.items() if x is not None}
+    ctx.cov['protocol_behaviours_replayed'] = len(traces)
+    ctx.cov['protocol_replay_mismatches'] = len(bad)
+    for k, x in list(bad.items())[:5]:
+        ctx.note_drift('AppClockRT behaviour %d: real AppClock differs from the model after action %d (%s)' % (k, x[0], x[1]))
+    if bad:
+        print('DRIFT C08: %d of %d replayed AppClockRT behaviours differ from the real AppClock (model drift, not a violation)'
+              % (len(bad), len(traces)))
 
 
 def brief(e):
